@@ -217,3 +217,14 @@ package eni
 //@ pure func flavorSum(s []networkv1beta1.Flavor) int = ite(len(s) > 0, s[0].Count, 0) + ite(len(s) > 1, s[1].Count, 0) + ite(len(s) > 2, s[2].Count, 0)
 //@ # the list is complete when the standard secondary entry (always written last) has been appended
 //@ guard store NodeSpec.Flavor in Reconcile: !(len(value) > 0 && value[len(value) - 1].NetworkInterfaceType == "Secondary" && value[len(value) - 1].NetworkInterfaceTrafficMode == "Standard") || (len(value) <= 3 && flavorSum(value) == target.Spec.NodeCap.Adapters - 1)
+
+//@ for C04
+//@ # ---- handing addresses back never depends on the caller still being there: Manager.Release fails only if a backend's
+//@ # ---- Release failed (the rollback of a cancelled ADD runs with that ADD's cancelled context) ----
+//@ ghost c04backenderr bool = false
+//@ func Manager.Release
+//@   requires m != nil && req != nil
+//@   at call NetworkInterface.Release: ghost c04backenderr = (c04backenderr || result1 != nil)
+//@   loop 1 invariant !c04backenderr
+//@   loop 2 invariant !c04backenderr
+//@   ensures result != nil ==> c04backenderr
